@@ -871,6 +871,12 @@ func (p *context) compileInstrOrValue(b llssa.Builder, iv instrOrValue, asValue 
 			if skipUnusedArrayDeref(v) {
 				return
 			}
+			if refs := v.Referrers(); refs != nil && len(*refs) == 0 {
+				// `_ = *p`: the value is dropped but the operand is still evaluated.
+				// A load nobody uses is deleted by the back end, so check explicitly.
+				b.AssertNilDeref(p.compileValue(b, v.X))
+				return
+			}
 			if refs := v.Referrers(); refs != nil && len(*refs) == 1 {
 				if _, ok := (*refs)[0].(*ssa.MakeInterface); ok {
 					if t := p.type_(v.Type(), llssa.InGo); t.RawType() != nil {
